@@ -7,7 +7,7 @@
 set -u
 patch=$(readlink -f "$1"); tier=$2; shift 2
 tag=$$
-wt=/tmp/seedrun_$tag/repo; vc=/tmp/seedrun_$tag/verif
+wt=/tmp/seedrun_$tag/repo_$tag; vc=/tmp/seedrun_$tag/verif
 mkdir -p /tmp/seedrun_$tag
 git -C /repo worktree add -q --detach $wt HEAD || exit 2
 cp /repo/gemclus/tree/_utils.cpython-312-x86_64-linux-gnu.so $wt/gemclus/tree/ 2>/dev/null
